@@ -319,6 +319,34 @@ func runC05(r *core.Run) {
 			return core.Outcome{Class: c.Kind, Nontrivial: c.N >= 2, Evals: 3}
 		})
 
+	r.Bound("marked-offsets", markBounds+" (here: the name of one leaf of a 3-node tree followed by a second tree); bytes ' ( _"+core.Pick(r, "", " and ) , : ; space TAB LF [ 0x00 0xFF"))
+	core.Clause(r, "marked-offsets", core.Opts{Rule: "a byte of the Newick vocabulary at EVERY offset of a long name (the one byte that forces quoting / must be escaped meets every internal buffer boundary of reader and writer); written, read back, the following tree must still be read; non-trivial = all"},
+		genMarks([]string{"leaf-name", "root-name"}, core.Pick(r, []int{'\'', '(', '_'}, []int{'\'', '(', ')', ',', ':', ';', '_', ' ', '\t', '\n', '[', 0x00, 0xFF}), nil),
+		func(c markCase) core.Outcome {
+			t := defaultNwTree([]int{2, 0, 0})
+			idx := 1
+			if c.Field == "root-name" {
+				idx = 0
+			}
+			t.Names[idx] = core.S(markedField(c, 'n'))
+			t.Dists[1] = "0.25"
+			root := t.build()
+			second := defaultNwTree([]int{1, 0}).build()
+			d1, f1 := writeNewickChecked(root)
+			d2, f2 := writeNewickChecked(second)
+			if f1 != "" || f2 != "" {
+				return core.Failf("%s %s", f1, f2)
+			}
+			got, p := readNewickAll(append(append(append([]byte{}, d1...), '\n'), d2...))
+			if p != "" {
+				return core.Failf("Reader panicked/hung: %s of %d bytes with %q at offset %d: %s", c.Field, c.Len, byte(c.Byte), c.Offset, p)
+			}
+			if len(got) != 2 || got[0].IsErr() || got[1].IsErr() || got[0].Rec != renderNewick(root) || got[1].Rec != renderNewick(second) {
+				return core.Failf("a tree with a %s of %d bytes with %q at offset %d, followed by a second tree, reads back as %s", c.Field, c.Len, byte(c.Byte), c.Offset, trunc(renderObs(got), 300))
+			}
+			return core.Outcome{Class: c.Field, Nontrivial: true, Evals: 3}
+		})
+
 	pool := nwTreePool()
 	seps := []string{"", " ", "\n", "\r\n", "\t "}
 	r.Bound("sequences", fmt.Sprintf("every list of 0..3 trees from a pool of %d, written one after another with each separator of %q after every tree (thorough: every per-gap assignment)", len(pool), seps))
